@@ -587,10 +587,31 @@ func runResendGate(c *Ctx) {
 		n := 0
 		for _, b := range f.CFG().Blocks {
 			ret, ok := IsReturnExit(b)
-			if !ok || len(ret.Results) != 3 {
+			if !ok {
 				continue
 			}
-			if tv := info.Types[ret.Results[2]]; tv.Value == nil || tv.Value.String() != "true" {
+			handsOut := false
+			if len(ret.Results) == 3 {
+				if tv := info.Types[ret.Results[2]]; tv.Value != nil && tv.Value.String() == "true" {
+					handsOut = true
+				}
+			}
+			// `return s.helper(idx)`: a method of the same state that hands the chunk out
+			if len(ret.Results) == 1 {
+				if call, isCall := ast.Unparen(ret.Results[0]).(*ast.CallExpr); isCall {
+					if h := p.CalleeInfo(info, call); h != nil && h.Body != nil && h.Decl != nil && h.Decl.Recv != nil {
+						ast.Inspect(h.Body, func(m ast.Node) bool {
+							if r2, ok := m.(*ast.ReturnStmt); ok && len(r2.Results) == 3 {
+								if tv := h.Info().Types[r2.Results[2]]; tv.Value != nil && tv.Value.String() == "true" {
+									handsOut = true
+								}
+							}
+							return true
+						})
+					}
+				}
+			}
+			if !handsOut {
 				continue
 			}
 			n++
